@@ -7,6 +7,7 @@ from .rules import batch as bt
 from .rules import globalstate as gs
 from .rules import interrupt as it
 from .rules import optionrules as op
+from .rules import recordrules as rr
 
 NOT_BEHAVIOUR = 'decides the listed structural clauses (necessary conditions); does not decide the behaviour itself'
 
@@ -68,6 +69,19 @@ prop('C17',
      ['layer order in getopt and in the recorded effective options (R34)',
       'forced closure of statutory rules (R35)', 'construction order (R36)'],
      ['that the report text names unused/overridden options correctly'])
+prop('C18',
+     [('R37', rr.r37_status_changes_logged), ('R38', rr.r38_first_and_last_action), ('R39', rr.r39_tag_agreement),
+      ('R40', rr.r40_action_key_flow), ('R41', rr.r41_renderers_read_record), ('R42', rr.r42_dump_arity),
+      ('R03', bt.r03_duplicates)],
+     'Static analysis of /repo source: elect/defeat log themselves on every path; the first recorded action of every rule '
+     'is begin/count/round and the end action is followed directly by the result assignment; tags agree between emitters, '
+     'recorder and renderers; renderers and rule hooks read only action keys that the recorder stores for that kind of '
+     'action and only configuration from the election object; dump hooks and rows agree with the header on arity; a batch '
+     'of exclusions names nobody twice. ' + NOT_BEHAVIOUR,
+     ['status changes log themselves (R37)', 'first action fills the header; end agrees with E.elected/defeated (R38)',
+      'tag agreement (R39)', 'action-key flow recorder -> renderers (R40)', 'renderers read only the record (R41)',
+      'dump rows have the header arity (R42)', 'no duplicate exclusion in one step (R03 ii)'],
+     ['textual agreement of report/dump/JSON figures (they print str() of the same stored object)'])
 
 LEVEL_TEXT = ('Static analysis of the source of /repo (never executed): obligations are enumerated from the '
               'repository\'s own entities (rule classes, call sites, stores, loops, class attributes) and each is '
